@@ -9,7 +9,7 @@ PROPERTY = "C19"
 ASSUMPTIONS = [
     "Stream: 4 initial streams (hot, cold, latent, an unloaded utility with zero duty) x all sequences of <=4 (quick) / 6 (thorough) assignments from a 16-event menu "
     "(t_supply/t_target in {50,100,150}, heat_flow in {0,200,600}, dt_cont in {0,10}, htc in {0.5,2}, set_heat_flow(300))",
-    "StreamCollection: pool of three streams with clashing names; 18-event menu (add, add with key, add_many, remove, replace, set_sort_key, +, member attribute assignment); "
+    "StreamCollection: pool of three streams with clashing names; 20-event menu (add, add with key, add_many, remove, replace, set_sort_key, +, member attribute assignment); "
     "depth 5 (quick) / 6 (thorough); states rebuilt by replaying the history on fresh objects; lock-step list reference",
     "film coefficient 0 is outside the alphabet (no reciprocal); supply == target together with a zero duty is inside it (the library makes it the zero-capacity limit of a latent cold stream)",
 ]
@@ -129,7 +129,9 @@ C_EVENTS = (
     [("add", 0), ("add", 1), ("add", 2), ("add_key", 1), ("add_many", None), ("add_many_keys", None),
      ("remove", "A"), ("remove", "A_1"), ("remove", "B"), ("remove", "zzz"),
      ("replace", None), ("sort", ("t_supply", False)), ("sort", ("name", True)), ("sort", (["t_target", "t_supply"], False)),
-     ("concat", None), ("mutate", (0, -2.0)), ("mutate", (0, -1.0)), ("mutate", (2, -10.0))]
+     ("concat", None), ("mutate", (0, -2.0)), ("mutate", (0, -1.0)), ("mutate", (2, -10.0)),
+     ("sort", (["dt_cont", "t_supply", "t_target"], False)),        # three names, all members tied on the first: the middle one decides
+     ("concat_same", None)]                                            # right operand holding two members of one name
 )
 
 
@@ -202,9 +204,10 @@ def coll_run_history(hist):
                 ref.add(s)
         elif kind == "sort":
             coll.set_sort_key(arg[0], reverse=arg[1]); ref.sort = (arg[0], arg[1])
-        elif kind == "concat":
+        elif kind in ("concat", "concat_same"):
             from OpenPinch.classes.stream_collection import StreamCollection as SC
             other = SC()
+            other_streams = [P[1], P[2]] if kind == "concat" else [P[0], P[1]]
             for s in other_streams:
                 other.add(s)
             n_self = len(ref.items)
@@ -326,6 +329,6 @@ SUBCHECKS = {
         describe="BFS over sequences of StreamCollection operations in lock step with a list reference; len/iter/index/contains observed after every step",
         rule="state = keys (repr), members in iteration order, key->member map of the reference, sort key, member sort attributes (plus the private dirty flag / cached order while the class keeps them); non-trivial = state holding >=2 members",
         explore=coll_explore, replay=coll_replay,
-        bound=lambda t: "all sequences of <=5 of 18 events" if t == "quick" else "all sequences of <=6 of 18 events (expansion of distinct states only)",
+        bound=lambda t: "all sequences of <=5 of 20 events" if t == "quick" else "all sequences of <=6 of 20 events (expansion of distinct states only)",
     ),
 }
